@@ -362,9 +362,10 @@ Lemma currency_rule_full d t :
   currency_doc_wf d -> calculate d = Totals t ->
   currency_identities d t /\
   t_adv_rows t = map (advance_amount (d_c d) (t_twt t)) (d_advances d) /\
-  t_dues t = map (due_amount (d_c d) (t_payable t)) (d_dues d).
+  t_dues t = map (due_amount (d_c d) (t_payable t)) (d_dues d) /\
+  t_rounding t = presented_rounding d.
 Proof.
-  intros (Hcr & Hitems & Hadv & Hrnd) H. unfold calculate in H. rewrite Hcr in H.
+  intros (Hcr & Hitems & Hadv) H. unfold calculate in H. rewrite Hcr in H.
   set (c := d_c d) in *.
   destruct (calc_lines true c (d_cur d) (d_rates d) (d_lines d)) as [lcs|] eqn:EL; [|discriminate].
   pose proof (calc_lines_currency _ _ _ _ _ Hitems EL) as HL.
@@ -417,9 +418,12 @@ Proof.
   set (twt := add total taxsum) in *.
   assert (ETW : exp twt = c /\ val twt = val total + val taxsum).
   { destruct ET as [A B]. unfold twt. rewrite add_same by lia. cbn [val exp]. split; [exact A|lia]. }
-  set (payable := match d_rounding d with Some r => add twt r | None => twt end) in *.
-  assert (EP : exp payable = c /\ val payable = val twt + oval (d_rounding d)).
-  { destruct ETW as [A B]. unfold payable. destruct (d_rounding d) as [r|]; cbn [oval oexp_ok] in *.
+  set (rounding := match d_rounding d with Some r => Some (rescale r c) | None => None end) in *.
+  assert (ER : oexp_ok c rounding).
+  { unfold rounding. destruct (d_rounding d) as [r|]; cbn [oexp_ok]; [apply rescale_exp|exact I]. }
+  set (payable := match rounding with Some r => add twt r | None => twt end) in *.
+  assert (EP : exp payable = c /\ val payable = val twt + oval rounding).
+  { destruct ETW as [A B]. unfold payable. destruct rounding as [r|]; cbn [oval oexp_ok] in *.
     - rewrite add_same by lia. cbn [val exp]. split; [exact A|lia].
     - split; [exact A|lia]. }
   pose proof (Forall_advances c twt (d_advances d) (proj1 ETW) Hadv) as HA.
@@ -428,7 +432,7 @@ Proof.
   set (advances := sum_opt c advs) in *.
   inversion H; subst t; clear H.
   unfold currency_identities. fold c.
-  cbn [t_lines t_sum t_discount t_charge t_tax_included t_total t_tax t_twt t_payable t_advances t_due t_dd t_cc t_adv_rows t_dues t_cats t_taxsum].
+  cbn [t_lines t_sum t_discount t_charge t_tax_included t_total t_tax t_twt t_payable t_advances t_due t_dd t_cc t_adv_rows t_dues t_cats t_taxsum t_rounding].
   destruct E0 as [E0a E0b], E1 as [E1a E1b], ET as [ETa ETb], ETW as [ETWa ETWb], EP as [EPa EPb].
   assert (Rsum : rescale sum c = sum) by (apply rescale_same; rewrite Esum; reflexivity).
   rewrite Rsum, (rescale_same total c ETa), (rescale_same taxsum c TS1), (rescale_same twt c ETWa), (rescale_same payable c EPa).
@@ -438,12 +442,12 @@ Proof.
   assert (OC : oexp_ok c charge) by (destruct charge; [apply HC|exact I]).
   rewrite (RO discount OD), (RO charge OC), (RO included EI).
   rewrite (map_rescale_id c advs HA).
-  split; [|split; reflexivity].
+  split; [|split; [|split]; reflexivity].
   split; [exact HP1|]. split; [rewrite Esum; reflexivity|].
   split; [rewrite HP2, Esum; reflexivity|].
   split; [exact OD|]. split; [exact OC|]. split; [exact EI|]. split; [exact ETa|].
   split; [lia|]. split; [exact HCATS|]. split; [exact TS1|]. split; [cbn [val zero_of] in TS2; lia|].
-  split; [reflexivity|]. split; [exact ETWa|]. split; [lia|]. split; [exact EPa|]. split; [exact EPb|].
+  split; [reflexivity|]. split; [exact ETWa|]. split; [lia|]. split; [exact ER|]. split; [exact EPa|]. split; [exact EPb|].
   split.
   { destruct advances as [a|].
     - destruct HS as [S1 S2]. cbn [rescale]. rewrite (rescale_same a c S1).
@@ -457,3 +461,8 @@ Qed.
 Theorem currency_rule_readds d t :
   currency_doc_wf d -> calculate d = Totals t -> currency_identities d t.
 Proof. intros W H. exact (proj1 (currency_rule_full d t W H)). Qed.
+
+(* totals.rounding as presented is the supplied value rounded to the currency's decimals *)
+Theorem currency_rule_rounding d t :
+  currency_doc_wf d -> calculate d = Totals t -> t_rounding t = presented_rounding d.
+Proof. intros W H. exact (proj2 (proj2 (proj2 (currency_rule_full d t W H)))). Qed.
